@@ -9,6 +9,7 @@ CONSTANTS
  MaxOps = 3
  MaxConc = 2
  SameSubject = TRUE
+ MixSameArt = FALSE
  LockPut = TRUE
  LockDel = TRUE
  LockDelEarly = TRUE
